@@ -202,6 +202,9 @@ class Token(str):
         date, or time according to the Token's grammar,
         true otherwise.
         """
+        if len(self) == 0:
+            return False
+
         for char in self.grammar.reserved_characters:
             if char in self:
                 return False
